@@ -762,6 +762,7 @@ def explain_description(
     txn_date: Optional[date] = None,
     transforms: Optional[List[Tuple[str, str]]] = None,
     field: Optional[Dict[str, str]] = None,
+    data_sources: Optional[Dict[str, List[Dict]]] = None,
 ) -> dict:
     """Trace how a description is processed and matched.
 
@@ -794,56 +795,23 @@ def explain_description(
         'is_unknown': False,
     }
 
-    # Try pattern matching against transformed description
-    desc_upper = transformed_desc.upper()
-
-    for rule in rules:
-        # Handle various formats
-        tags = []
-        if len(rule) == 7:
-            pattern, merchant, category, subcategory, parsed, source, tags = rule
-        elif len(rule) == 6:
-            pattern, merchant, category, subcategory, parsed, source = rule
-        elif len(rule) == 5:
-            pattern, merchant, category, subcategory, parsed = rule
-            source = 'unknown'
-        else:
-            pattern, merchant, category, subcategory = rule
-            parsed = None
-            source = 'unknown'
-
-        try:
-            # Determine if this is an expression pattern or a regex pattern
-            if _is_expression_pattern(pattern):
-                # Use expression parser for expression-based rules
-                # Use the already-transformed transaction
-                matches = expr_parser.matches_transaction(pattern, transaction)
-
-                if not matches:
-                    continue
-            else:
-                # Legacy regex pattern matching
-                if not re.search(pattern, desc_upper, re.IGNORECASE):
-                    continue
-
-                # If pattern has modifiers, check them
-                if parsed and (parsed.amount_conditions or parsed.date_conditions):
-                    if not check_all_conditions(parsed, amount, txn_date):
-                        continue
-
-            result['matched_rule'] = {
-                'pattern': pattern,
-                'source': source,
-                'matched_on': 'transformed' if transformed_desc != description else 'original',
-                'tags': tags,
-            }
-            result['merchant'] = merchant
-            result['category'] = category
-            result['subcategory'] = subcategory
-            return result
-
-        except (re.error, expr_parser.ExpressionError):
-            continue
+    # Classify exactly the way `tally up` does (same engine, rule mode, variables,
+    # let bindings, tag-only rules and supplemental data) instead of re-implementing it
+    merchant, category, subcategory, match_info = normalize_merchant(
+        description, rules, amount=amount, txn_date=txn_date, field=field,
+        transforms=transforms, data_sources=data_sources,
+    )
+    if category != 'Unknown' and match_info and match_info.get('pattern') is not None:
+        result['matched_rule'] = {
+            'pattern': match_info.get('pattern'),
+            'source': match_info.get('source'),
+            'matched_on': 'transformed' if transformed_desc != description else 'original',
+            'tags': match_info.get('tags', []),
+        }
+        result['merchant'] = merchant
+        result['category'] = category
+        result['subcategory'] = subcategory
+        return result
 
     # No match - unknown merchant
     result['is_unknown'] = True
